@@ -125,6 +125,8 @@ var scopeTable = []scopeEntry{
 	sc("MAT-8", `\[flag\]`, "C10", "C19"),
 	sc("MAT-8", `.`, "C10", "C19", "C01", "C02", "C13", "C11", "C06"),
 	// parser typestate
+	sc("PAR-1", `:no-Rep-after-DblDash`, "C03", "C08"), // a repeated marker consumes nothing: unbounded recursion in apply
+	sc("PAR-1", `.`, "C08"),
 	sc("PAR-2", `:(back@|panic\[|meaning)`, "C08"),
 	sc("PAR-5", `:(panic-type@|recover\[)`, "C03", "C08"),
 	sc("PAR-6", `:(no-other-shortcuts|optional|repetition|alternation\[|concatenation\[)`, "C01"),
